@@ -285,7 +285,7 @@ def run():
 
     file = open(args.outfile, "wb")
 
-    writer = dpkt.pcapng.Writer(file, snaplen=20000)
+    writer = dpkt.pcapng.Writer(file, snaplen=262144)  # no exported frame is longer (14 + 40 + 65535)
 
     for buf, ts in all_decrypted_sessions:
         writer.writepkt(bytes(buf), ts)
